@@ -328,7 +328,8 @@ DELAY_CONFIGS = [
     {"go.before_lock": 15, "go.after_bestmove": 30, "stop.before_wait": 10},
 ]
 
-GAPS = [0.0, 0.0, 0.00005, 0.001, 0.02]
+# the longest gap exceeds every H3 delay: a command can also arrive just AFTER a held-open window has closed
+GAPS = [0.0, 0.0, 0.00005, 0.001, 0.02, 0.07]
 
 
 def gen_history(rng, positions, length):
@@ -682,6 +683,9 @@ def c05_stage(out, tier, seed):
         ["ucinewgame", "stop", "isready"],
         ["go depth 2", None, "go infinite", "stop", None, "isready"],
         ["go infinite", "stop", None, "isready", "go infinite", "isready", "stop", None],
+        # a second search started inside the first one's bestmove-to-exit window, questions once that window has closed
+        ["go depth 1", None, "go infinite", ("isready", 0.09), "stop", None, "isready"],
+        ["go depth 1", None, "go infinite", ("isready", 0.0), ("isready", 0.09), "stop", None, "isready"],
     ]
     quit_hist = [["go infinite", "quit"], ["go depth 1", None, "go infinite", "isready", "quit"]]
     for f in fixed:
@@ -690,11 +694,12 @@ def c05_stage(out, tier, seed):
             if c is None:
                 steps.append({"kind": "await_bestmove"})
             else:
+                c, gap = c if isinstance(c, tuple) else (c, 0.0)
                 k = c.split()[0]
-                steps.append({"cmd": c, "kind": "go" if k == "go" else k, "gap": 0.0, "infinite": c == "go infinite"})
+                steps.append({"cmd": c, "kind": "go" if k == "go" else k, "gap": gap, "infinite": c == "go infinite"})
         steps.append({"cmd": "isready", "kind": "isready", "gap": 0.0})
         steps.append({"cmd": "quit", "kind": "quit", "gap": 0.0})
-        for d in DELAY_CONFIGS[:3]:
+        for d in DELAY_CONFIGS[:3] + [DELAY_CONFIGS[6]]:
             jobs.append((bins[0], steps, d))
     for f in quit_hist:
         steps = []
